@@ -1001,7 +1001,7 @@ theorem parse_allTop (text : List Nat) (pairs : List Pair) (h : Pest.parse Gen.g
   split at h
   · rename_i q ks hc
     cases h
-    have := (sound (genv text) (spec text.toArray) (spec_closed text) _).2.2 _ _ _ _ _ hc
+    have := (shape_sound (genv text) (spec text.toArray) (spec_closed text) _).2.2 _ _ _ _ _ hc
     exact this rfl
   · cases h
 
